@@ -62,7 +62,8 @@ def cases(tier, seed):
     for i in range(600 if tier == "thorough" else 80):
         rng = random.Random("c08w/%s/%d" % (seed, i))
         out.append({"cls": "combinator-with-window", "spec": nest_with_windows(rng)})
-    return out
+    from vlib import gen2
+    return out + gen2.appended(tier, seed, "c08", ["A1", "A2", "A3", "A4", "A5", "A3", "A6"], 98, 630)
 
 
 def run_case(case):
